@@ -11,6 +11,8 @@ def roundtrip_case(prop, case, edges=False):
     name = j["header"]["file_name"]
     (w1, path) = iolib.write_impl(inst, name)
     obs = {"write1": w1}
+    if j["cls"] == "mat":
+        obs["built"] = iolib.describe(inst)       # the graph as its public API shows it after the add_edge history
     if w1[0] != "ok":
         return obs
     res, _ = iolib.parse_impl("get", None, path=path)
